@@ -476,6 +476,10 @@ func (c *Client) Mail(from string, opts *MailOptions) error {
 				// A non-nil empty string stands for AUTH=<> (RFC 4954).
 				sb.WriteString(" AUTH=<>")
 			} else {
+				// xtext is defined on US-ASCII only
+				if !isPrintableASCII(*opts.Auth) {
+					return errors.New("smtp: Malformed AUTH parameter value")
+				}
 				fmt.Fprintf(&sb, " AUTH=%s", encodeXtext(*opts.Auth))
 			}
 		}
